@@ -8,8 +8,8 @@ import "strings"
 //
 //   - hlslKeywords: keywords of the language proper (types, control flow,
 //     storage classes, object types).  Contextual words that DXC accepts as
-//     identifiers (sample, point, line, triangle, lineadj, triangleadj,
-//     linear) and the effect-framework words (pass, technique ... see below)
+//     identifiers (sample, point, line, triangle, lineadj, triangleadj)
+//     and the effect-framework words (pass, technique ... see below)
 //     are deliberately NOT in this table.
 //   - hlslReservedWords: the "Reserved Words" appendix (C++ words reserved for
 //     future use).
@@ -24,7 +24,7 @@ AppendStructuredBuffer asm asm_fragment BlendState bool break Buffer ByteAddress
 case cbuffer centroid class column_major compile compile_fragment CompileShader const continue
 ComputeShader ConsumeStructuredBuffer default DepthStencilState DepthStencilView discard do
 double DomainShader dword else export extern false float for fxgroup GeometryShader groupshared
-half Hullshader if in inline inout InputPatch int interface matrix
+half Hullshader if in inline inout InputPatch int interface linear matrix
 min16float min10float min16int min12int min16uint namespace nointerpolation noperspective NULL
 out OutputPatch packoffset pixelfragment PixelShader PointStream LineStream TriangleStream precise
 RasterizerState RenderTargetView return register row_major RWBuffer RWByteAddressBuffer
